@@ -133,6 +133,12 @@ class C05(Prop):
                     # a word with 4 errors is rejected; with more it may alias: whatever happened, follow the implementation's mask
                     if r["result"] != 0 and m["n"] <= 5 and any(c["type"] == 1 for c in r["calls"]):
                         held[(r["calls"][0]["bytes"][5] >> 5) & 7] = ("?", None)
+            if m.get("kind") != "frag" and mode == 0 and m.get("sync", 1) == 1 and any(c["type"] == 1 for c in r["calls"]):
+                # a stream-sync frame of unknown content (garbage LLRs, a corrupted LSF frame kind sent under stream sync, ...) was accepted as a
+                # LICH fragment (random Golay words are within distance 3 of a code word more often than not): its slot now holds unknown bytes
+                fnx = (next(c for c in r["calls"] if c["type"] == 1)["bytes"][5] >> 5) & 7
+                if fnx <= 5:
+                    held[fnx] = ("?", None)
             # clears: LSF-sync failure, successful reassembly
             if m.get("sync", 1) == 0 and r["result"] == 0:
                 held = {}
